@@ -22,6 +22,8 @@ CLAIMED = {
  "C09": ("fault_enumeration", "deterministic simulation with crash injection: every storage unit of recorded operations is a crash point; restart + catch-up vs uncrashed twin",
          "For each recorded operation the crash points are enumerated completely (every atomic storage unit); which scenarios and operations are recorded is seeded sampling. Second-order crashes are sampled.",
          "The store is modelled as prefix-durable over atomic units (put/delete/batch); LevelDB itself is not exercised. " + LEDGER_NOTE, "3 C09"),
+ "C11": ("exploration", "deterministic simulation: stored-diff replay on every replica and height (with rollbacks); late joiner running the real fastSync steps on wire bytes against a Byzantine provider that corrupts the snapshot archive, diffs and certificates",
+         "Seeded exploration: each run ends with a fast sync of a fresh node from a peer of the run; refused imports are checked for emptiness of the target key range, accepted ones for exact root, contents and key lookups, and the joiner must then follow the chain.", LEDGER_NOTE + " The fast-sync batch loop/peer selection and kubo's CID verification are stubbed.", "3 C11"),
  "C13": ("exploration", "deterministic simulation: op-by-op comparison of the real copy-on-write store with a reference map; in-run canonical-state and disk-unit invariance around speculative work; historical reads vs commit-time records under restarts/rollbacks",
          "Seeded exploration of operation sequences on the component and of ledger histories for the in-run clauses.", LEDGER_NOTE, "3 C13"),
  "C10": ("exploration", "deterministic simulation: live validator view vs fresh Load() after every block on every replica, plus restart/rollback rebuilds; registry vs ledger scan",
